@@ -33,7 +33,13 @@ type c20Trip struct {
 }
 
 func genC20Protocol(rng *Rng, workdir string, stress bool) *engSession {
-	s := newEngSession(workdir, "C08")
+	return genProtocol(rng, workdir, stress, "C08", -1)
+}
+
+// genProtocol: the traveller-bot protocol under a chosen projection; bits >= 0 fixes the option bits
+// of the promises algorithm (0x10 correct balances, 0x20 correct daily total, 0x40 correct promise distance)
+func genProtocol(rng *Rng, workdir string, stress bool, proj string, bits int) *engSession {
+	s := newEngSession(workdir, proj)
 	s.maskOverride = 1 | 16
 	var p flap.FlapParams
 	tripLengths := [][]int{{2, 3, 5}, {2, 2}, {2, 3, 5, 7, 7, 14}, {3}, {2, 9}}[rng.Intn(5)]
@@ -54,6 +60,9 @@ func genC20Protocol(rng *Rng, workdir string, stress bool) *engSession {
 	}
 	if rng.Chance(1, 4) {
 		p.Promises.Algo |= 0x20
+	}
+	if bits >= 0 {
+		p.Promises.Algo = (p.Promises.Algo & 0x0f) | flap.PromisesAlgo(bits)
 	}
 	p.Promises.MaxPoints = uint32(rng.Range(3, 20))
 	p.Promises.MaxDays = flap.Days(maxLen + rng.Range(2, 40))
